@@ -117,8 +117,8 @@ fn negative_control(cx: &mut CaseCtx, prop: &str, kind: Kind, obs: &[u8], rt: &R
 }
 
 fn observe_policy(step: usize, total: usize, count: usize, prev_len: usize, new_len: usize, stride: usize, hot: &mut usize) -> bool {
-    if total <= 96 || step < 8 || step + 1 >= total {
-        return true;
+    if total <= 96 || step < 8 || step + 220 >= total {
+        return true; // short programs, the start, and the whole tail after a sweep
     }
     for b in [256usize, 65536, 1 << 24] {
         if prev_len < b && new_len >= b {
@@ -319,13 +319,22 @@ fn c14_observe(cx: &mut CaseCtx, real: &Real, first: &[u8], p: &Prog, step: usiz
     ok
 }
 
-pub fn sweep_prog(kind: Kind, r: &mut Rng, n_ops: u64, mixed: bool) -> Prog {
+/// `n_ops` smallest entries (every 7th a random one when `mixed`), then `tail` further operations
+/// drawn from the full random generator, so that every entry kind is also added to a table that
+/// is already past the carry.
+pub fn sweep_prog(kind: Kind, r: &mut Rng, n_ops: u64, mixed: bool, tail: u64) -> Prog {
     let mut st = GenState::default();
     let hdr = gen_hdr(r);
-    let ctor = gen_ctor(kind, r, &mut st);
+    let ctor = match kind {
+        Kind::Sdt => {
+            st.sdt_len = 36;
+            Ctor::Sdt { sig: *b"SWEP", len: 36, rev: 1 }
+        }
+        _ => gen_ctor(kind, r, &mut st),
+    };
     let mut ops = Vec::new();
-    for i in 0..n_ops {
-        let o = if mixed && i % 7 == 3 { gen_op(kind, r, &mut st) } else { sweep_op(kind, r, &mut st, i) };
+    for i in 0..n_ops + tail {
+        let o = if (mixed && i % 7 == 3) || (i >= n_ops && i % 2 == 0) { gen_op(kind, r, &mut st) } else { sweep_op(kind, r, &mut st, i) };
         match o {
             Some(o) => ops.push(o),
             None => break,
@@ -370,7 +379,7 @@ pub fn run(cfg: &Cfg) -> Report {
     rep.merge(par_cases(cfg, "tables.sweep256", n_sweep, |cx| {
         let kind = sweep_kinds[(cx.idx / 2) as usize];
         let mut r = cx.rng.clone();
-        let p = sweep_prog(kind, &mut r, 300, cx.idx % 2 == 1);
+        let p = sweep_prog(kind, &mut r, 300, cx.idx % 2 == 1, 40);
         run_prog(cx, &p, 1);
     }));
     // length 65535->65536 (quick: for every kind; long programs observed in windows)
@@ -385,8 +394,8 @@ pub fn run(cfg: &Cfg) -> Report {
         }
         let mut r = cx.rng.clone();
         let es = sweep_entry_size(kind).max(1) as u64;
-        let n = 66_000 / es + 40;
-        let p = sweep_prog(kind, &mut r, n, cx.idx % 2 == 1);
+        let n = 65_600 / es;
+        let p = sweep_prog(kind, &mut r, n, cx.idx % 2 == 1, 160);
         run_prog(cx, &p, 211);
     }));
     // count 65535->65536 for the tables that keep a count field (thorough; RHCT/HEST/RIMT quick too)
@@ -397,7 +406,7 @@ pub fn run(cfg: &Cfg) -> Report {
     rep.merge(par_cases(cfg, "tables.sweepcount64k", count_kinds.len() as u64, |cx| {
         let kind = count_kinds[cx.idx as usize];
         let mut r = cx.rng.clone();
-        let p = sweep_prog(kind, &mut r, 65_600, false);
+        let p = sweep_prog(kind, &mut r, 65_500, false, 200);
         run_prog(cx, &p, 4099);
     }));
     rep
